@@ -44,7 +44,7 @@ UNITS2 = {
     'ListSeq': (os.path.join(vlib.REPO, 'librfn/list.c'),
                 ['list_insert', 'list_push', 'list_extract', 'list_iterate', 'list_iterator_next', 'list_iterator_insert',
                  'list_iterator_remove', 'list_contains', 'list_remove', 'list_insert_sorted'], 3,
-                {'inmem': ['list_node', 'list_node_t', 'list_t', 'list_iterator_t'], 'recursive_loops': True}),
+                {'inmem': ['list_node', 'list_node_t', 'list_t', 'list_iterator_t'], 'recursive_loops': True, 'optional': ['list_insert_sorted']}),
     # one iteration of the POSIX main loop; the clock, the scheduling pass and the sleep are the environment
     'MainLoopSeq': (os.path.join(vlib.VERIF, 'harness/wrap_mainloop.c'), ['fibre_scheduler_main_loop'], 1,
                     {'externs': ['time_now', 'fibre_scheduler_next', 'usleep'], 'flags': ['-I' + vlib.REPO]}),
@@ -58,7 +58,7 @@ def regen(units):
             if u in UNITS2:
                 path, fns, fuel = UNITS2[u][:3]
                 opt = UNITS2[u][3] if len(UNITS2[u]) > 3 else {}
-                text = c2lean2.generate(path, fns, 'Librfn.Gen.' + u, INC + opt.get('flags', []), fuel=fuel, externs=opt.get('externs', ()), inmem=opt.get('inmem', ()), recursive_loops=opt.get('recursive_loops', False))
+                text = c2lean2.generate(path, fns, 'Librfn.Gen.' + u, INC + opt.get('flags', []), fuel=fuel, externs=opt.get('externs', ()), inmem=opt.get('inmem', ()), recursive_loops=opt.get('recursive_loops', False), optional=opt.get('optional', ()))
             else:
                 path, fns = UNITS[u]
                 text = c2lean.generate(path, fns, 'Librfn.Gen.' + u, INC)
@@ -101,7 +101,10 @@ def signature_changes(unit):
         return []
     cur = signatures(unit)
     out = []
+    opt = UNITS2[unit][3].get('optional', ()) if unit in UNITS2 and len(UNITS2[unit]) > 3 else ()
     for k in sorted(set(exp) | set(cur)):
+        if any(k.split(' ', 1)[1] == o or k.split(' ', 1)[1].startswith(o + '.') for o in opt):
+            continue
         if exp.get(k) != cur.get(k):
             out.append(f'{k}: was `{exp.get(k)}` is `{cur.get(k)}`'[:400])
     return out
